@@ -278,6 +278,8 @@ pub fn limit_change_case(base: usize, steps: &[usize], pre: usize, extra: usize,
     for &l in steps {
         let s = &mut server;
         crate::link::guard("NetcodeServer::set_max_clients", || s.set_max_clients(l))?;
+        // requests above the library's maximum are clamped to it (NETCODE_MAX_CLIENTS = 1024)
+        let l = l.min(1024);
         if l < limit {
             lowered = true;
         }
@@ -397,6 +399,13 @@ pub fn limit_change_cases(tier: Tier) -> Vec<(usize, Vec<usize>, usize, usize, b
             out.push((b, vec![n, b, n], b, n, false));
         }
     }
+    // a limit requested above the library's maximum of 1024 (clamped): the last places are contested by overlapping handshakes
+    for &(b, n) in &[(4usize, 1025usize), (4, 1500), (1000, 4096), (1024, 2000)] {
+        for rev in [false, true] {
+            out.push((b, vec![n], 1023, 3, rev));
+        }
+    }
+    out.push((2, vec![1025, 3000], 1022, 4, false));
     out
 }
 
